@@ -1,22 +1,35 @@
 // C33 oracle harness: determinism and copy-invariance of the model compiler, through the mjSpec C API of the tree build.
 //
 // Input: a sequence of cases.  Each case is
-//     case <ntex> <seed> <nstep>
+//     case <ntex> <seed> <nstep> [x]
 //     <model description lines in the format of harness/mjbuild.h (may contain `mesh` / `makemesh` lines)>
 //     end
+//     [when the header ends in `x`: extra lines for element kinds mjbuild.h cannot create, then `xend`:
+//        tuple <name> (<objtype-int> <objname> <prm>)+      skin <name> <body1> <body2> <material|~>
+//        hfield <name> <nrow> <ncol> <seed>                 geomstr <geomname> hfieldname|material|meshname <value>
+//        flex <name> <dim 1|2> <body>...(dim+1 bodies)      default <class> <parentclass|~> <seed>
+//        setdefault <objtype-int> <name> <class>]
 // The harness adds <ntex> builtin textures (+ one material per texture) derived from <seed>, then checks
 //   twice      mj_compile(spec) twice gives bit-identical models
-//   copyspec   mj_compile(mj_copySpec(spec)) gives the same model
+//   copyspec   mj_compile(mj_copySpec(spec)) gives the same model (copy taken from the compiled spec); the copy has the same
+//              number of elements of every kind as the original (count-<kind>)
+//   copyspec0  the same for a deep copy taken BEFORE the spec was ever compiled
+//   copycopy   the same for a deep copy of the deep copy
 //   copymodel  mj_copyModel(NULL, m) gives the same model
 //   thread     compiling with compiler.usethread flipped gives the same model
 //   recompile  after <nstep> steps with a control signal, mj_recompile(spec, NULL, m, d) keeps time, qpos, qvel, act,
 //              ctrl, mocap_pos, mocap_quat bit-exactly and yields the same model again
 //   edit       after adding one more jointed body at the end of the world body, mj_recompile keeps the state of every
 //              existing joint / actuator / mocap body (the new joint starts at qpos0 with zero velocity)
+//   edit2      after adding a stateful actuator on the new joint, mj_recompile keeps the state (new act = 0, new ctrl = 0)
+//   undo       after deleting the added body again (mjs_delete: the actuator goes with it), mj_recompile keeps the state
+//              of everything that is left
 // Models are compared bitwise: every array of MJMODEL_POINTERS (element size × count), every size of MJMODEL_SIZES,
 // the opt / vis / stat structs, and the byte stream written by mj_saveModel.
 // Output, one line per case: `ok nmesh=.. ntex=.. nq=.. nv=.. nu=.. pooltasks=..`, or `DIFF <check>:<field> ...`,
-// or `error <message>` when the spec does not compile at all.
+// or `error <message>` when the spec does not compile at all; the first two are followed by
+// ` # src=<objtype>:<count>,... copy=... copy0=...` (element counts per kind of the spec and of its two deep copies).
+#include <csetjmp>
 #include <csignal>
 #include <cstdint>
 #include <cstdio>
@@ -90,6 +103,27 @@ void add_textures(mjSpec* s, int ntex, unsigned seed) {
   }
 }
 
+// an engine error while STEPPING (mju_error, e.g. a diverged or degenerate simulation) is not a compile defect: the state
+// checks of the case are abandoned and the case is reported with `simerror=1`
+std::jmp_buf sim_jmp;
+bool sim_armed = false;
+char sim_msg[200];
+void on_engine_error(const char* msg) {
+  if (sim_armed) { std::snprintf(sim_msg, sizeof sim_msg, "%s", msg); sim_armed = false; std::longjmp(sim_jmp, 1); }
+  std::fprintf(stderr, "ERROR %s\n", msg);
+  std::exit(1);
+}
+bool simerror = false;
+size_t diffs_at_simerror = 0;
+// steps the simulation; after an engine error the later calls do nothing and the differences noted from then on are dropped
+void steps(const mjModel* m, mjData* d, int n) {
+  if (simerror) return;
+  if (setjmp(sim_jmp)) { simerror = true; diffs_at_simerror = diffs.size(); return; }
+  sim_armed = true;
+  for (int k = 0; k < n; k++) mj_step(m, d);
+  sim_armed = false;
+}
+
 struct State {
   double time;
   std::vector<double> qpos, qvel, act, ctrl, mpos, mquat;
@@ -111,17 +145,185 @@ bool same_prefix(const std::vector<double>& a, const double* b, size_t n) {
   return a.size() <= n && (a.empty() || !std::memcmp(a.data(), b, a.size() * sizeof(double)));
 }
 
-void run_case(int ntex, unsigned seed, int nstep) {
+// ---------------------------------------------------------------------------------------------- extras
+const mjtObj COUNT_KINDS[] = {mjOBJ_BODY, mjOBJ_JOINT, mjOBJ_GEOM, mjOBJ_SITE, mjOBJ_CAMERA, mjOBJ_LIGHT, mjOBJ_FRAME,
+                              mjOBJ_FLEX, mjOBJ_MESH, mjOBJ_SKIN, mjOBJ_HFIELD, mjOBJ_TEXTURE, mjOBJ_MATERIAL, mjOBJ_PAIR,
+                              mjOBJ_EXCLUDE, mjOBJ_EQUALITY, mjOBJ_TENDON, mjOBJ_ACTUATOR, mjOBJ_SENSOR, mjOBJ_NUMERIC,
+                              mjOBJ_TEXT, mjOBJ_TUPLE, mjOBJ_KEY, mjOBJ_PLUGIN};
+const int NCOUNT = (int)(sizeof COUNT_KINDS / sizeof COUNT_KINDS[0]);
+
+std::vector<int> count_elements(const mjSpec* s) {
+  std::vector<int> n;
+  for (mjtObj k : COUNT_KINDS) {
+    int c = 0;
+    for (mjsElement* e = mjs_firstElement(s, k); e; e = mjs_nextElement(s, e)) c++;
+    n.push_back(c);
+  }
+  return n;
+}
+
+std::string show_counts(const std::vector<int>& n) {
+  std::string r;
+  for (int i = 0; i < (int)n.size(); i++) {
+    if (!r.empty()) r += ",";
+    r += std::to_string((int)COUNT_KINDS[i]) + ":" + std::to_string(n[i]);
+  }
+  return r.empty() ? "-" : r;
+}
+
+void compare_counts(const char* check, const std::vector<int>& a, const std::vector<int>& b) {
+  for (int i = 0; i < NCOUNT; i++) {
+    if (a[i] != b[i]) {
+      std::string f = std::string("count-") + mju_type2Str(COUNT_KINDS[i]);
+      note(check, f.c_str());
+    }
+  }
+}
+
+// reads the extra lines up to `xend`; returns false with a message on a malformed line
+bool read_extras(mjSpec* s, char* err, int errsz) {
+  static char line[1 << 14];
+  bool ok = s != nullptr;
+  while (std::fgets(line, sizeof line, stdin)) {
+    std::vector<char*> tok;
+    char* save;
+    for (char* t = strtok_r(line, " \t\r\n", &save); t; t = strtok_r(nullptr, " \t\r\n", &save)) tok.push_back(t);
+    if (tok.empty()) continue;
+    if (!std::strcmp(tok[0], "xend")) return ok;
+    if (!ok) continue;                                   // keep consuming up to xend
+#define XFAIL(...) { std::snprintf(err, errsz, __VA_ARGS__); ok = false; continue; }
+    size_t n = tok.size();
+    if (!std::strcmp(tok[0], "tuple")) {
+      if (n < 5 || (n - 2) % 3) XFAIL("bad tuple line");
+      mjsTuple* t = mjs_addTuple(s);
+      if (!t || mjs_setName(t->element, tok[1])) XFAIL("cannot add tuple %s", tok[1]);
+      std::vector<int> types; std::vector<double> prm;
+      for (size_t i = 2; i < n; i += 3) {
+        types.push_back(std::atoi(tok[i]));
+        mjs_appendString(t->objname, tok[i + 1]);
+        prm.push_back(std::strtod(tok[i + 2], nullptr));
+      }
+      mjs_setInt(t->objtype, types.data(), (int)types.size());
+      mjs_setDouble(t->objprm, prm.data(), (int)prm.size());
+    } else if (!std::strcmp(tok[0], "skin")) {
+      if (n != 5) XFAIL("bad skin line");
+      mjsSkin* k = mjs_addSkin(s);
+      if (!k || mjs_setName(k->element, tok[1])) XFAIL("cannot add skin %s", tok[1]);
+      const float vert[12] = {0, 0, 0, 0.1f, 0, 0, 0, 0.1f, 0, 0, 0, 0.1f};
+      const int face[12] = {0, 2, 1, 0, 1, 3, 0, 3, 2, 1, 2, 3};
+      mjs_setFloat(k->vert, vert, 12);
+      mjs_setInt(k->face, face, 12);
+      const float bpos[6] = {0, 0, 0, 0.05f, 0, 0};
+      const float bquat[8] = {1, 0, 0, 0, 1, 0, 0, 0};
+      mjs_appendString(k->bodyname, tok[2]);
+      mjs_appendString(k->bodyname, tok[3]);
+      mjs_setFloat(k->bindpos, bpos, 6);
+      mjs_setFloat(k->bindquat, bquat, 8);
+      const int id0[3] = {0, 1, 2}, id1[2] = {2, 3};
+      const float w0[3] = {1, 0.5f, 0.25f}, w1[2] = {0.75f, 1};
+      mjs_appendIntVec(k->vertid, id0, 3); mjs_appendIntVec(k->vertid, id1, 2);
+      mjs_appendFloatVec(k->vertweight, w0, 3); mjs_appendFloatVec(k->vertweight, w1, 2);
+      if (std::strcmp(tok[4], "~")) mjs_setString(k->material, tok[4]);
+    } else if (!std::strcmp(tok[0], "hfield")) {
+      if (n != 5) XFAIL("bad hfield line");
+      mjsHField* h = mjs_addHField(s);
+      if (!h || mjs_setName(h->element, tok[1])) XFAIL("cannot add hfield %s", tok[1]);
+      h->nrow = std::atoi(tok[2]); h->ncol = std::atoi(tok[3]);
+      if (h->nrow < 2 || h->ncol < 2 || h->nrow > 64 || h->ncol > 64) XFAIL("bad hfield size");
+      unsigned st = (unsigned)std::strtoul(tok[4], nullptr, 10);
+      std::vector<float> data((size_t)h->nrow * h->ncol);
+      for (float& v : data) v = (float)unit(st);
+      mjs_setFloat(h->userdata, data.data(), (int)data.size());
+      h->size[0] = 0.5; h->size[1] = 0.4; h->size[2] = 0.1; h->size[3] = 0.05;
+    } else if (!std::strcmp(tok[0], "geomstr")) {
+      if (n != 4) XFAIL("bad geomstr line");
+      mjsElement* e = mjs_findElement(s, mjOBJ_GEOM, tok[1]);
+      mjsGeom* g = e ? mjs_asGeom(e) : nullptr;
+      if (!g) XFAIL("geomstr: no geom %s", tok[1]);
+      if (!std::strcmp(tok[2], "hfieldname")) mjs_setString(g->hfieldname, tok[3]);
+      else if (!std::strcmp(tok[2], "material")) mjs_setString(g->material, tok[3]);
+      else if (!std::strcmp(tok[2], "meshname")) mjs_setString(g->meshname, tok[3]);
+      else XFAIL("geomstr: unknown field %s", tok[2]);
+    } else if (!std::strcmp(tok[0], "flex")) {
+      int dim = n > 2 ? std::atoi(tok[2]) : 0;
+      if ((dim != 1 && dim != 2) || n != (size_t)(3 + dim + 1)) XFAIL("bad flex line");
+      mjsFlex* f = mjs_addFlex(s);
+      if (!f || mjs_setName(f->element, tok[1])) XFAIL("cannot add flex %s", tok[1]);
+      f->dim = dim;
+      f->radius = 0.01;
+      f->contype = 0; f->conaffinity = 0;
+      std::vector<int> el;
+      for (int i = 0; i <= dim; i++) { mjs_appendString(f->vertbody, tok[3 + i]); el.push_back(i); }
+      mjs_setInt(f->elem, el.data(), (int)el.size());
+    } else if (!std::strcmp(tok[0], "default")) {
+      if (n != 4) XFAIL("bad default line");
+      const mjsDefault* par = std::strcmp(tok[2], "~") ? mjs_findDefault(s, tok[2]) : nullptr;
+      if (std::strcmp(tok[2], "~") && !par) XFAIL("default: no parent class %s", tok[2]);
+      mjsDefault* d = mjs_addDefault(s, tok[1], par);
+      if (!d) XFAIL("cannot add default %s", tok[1]);
+      unsigned st = (unsigned)std::strtoul(tok[3], nullptr, 10);
+      d->geom->rgba[0] = (float)unit(st); d->geom->friction[0] = 0.5 + unit(st);
+      d->joint->damping[0] = unit(st); d->site->size[0] = 0.01 + 0.02 * unit(st);
+      d->tendon->width = 0.002 + 0.01 * unit(st);
+    } else if (!std::strcmp(tok[0], "setdefault")) {
+      if (n != 4) XFAIL("bad setdefault line");
+      mjsElement* e = mjs_findElement(s, (mjtObj)std::atoi(tok[1]), tok[2]);
+      const mjsDefault* d = mjs_findDefault(s, tok[3]);
+      if (!e || !d) XFAIL("setdefault: element %s or class %s not found", tok[2], tok[3]);
+      mjs_setDefault(e, d);
+    } else XFAIL("unknown extra op %s", tok[0]);
+#undef XFAIL
+  }
+  std::snprintf(err, errsz, "extras not terminated by xend");
+  return false;
+}
+
+// compile `sp` and compare with the reference model
+void compile_and_compare(const char* check, mjSpec* sp, const mjModel* ref) {
+  mjModel* m = mj_compile(sp, nullptr);
+  if (!m) { note(check, "compile-of-copy-failed"); return; }
+  compare_models(check, ref, m);
+  mj_deleteModel(m);
+}
+
+void check_state(const char* check, const State& b, const mjModel* m, const mjData* d, bool exact_sizes) {
+  if (d->time != b.time) note(check, "time");
+  if (!same_prefix(b.qpos, d->qpos, (size_t)m->nq) || (exact_sizes && b.qpos.size() != (size_t)m->nq)) note(check, "qpos");
+  if (!same_prefix(b.qvel, d->qvel, (size_t)m->nv) || (exact_sizes && b.qvel.size() != (size_t)m->nv)) note(check, "qvel");
+  if (!same_prefix(b.act, d->act, (size_t)m->na) || (exact_sizes && b.act.size() != (size_t)m->na)) note(check, "act");
+  if (!same_prefix(b.ctrl, d->ctrl, (size_t)m->nu) || (exact_sizes && b.ctrl.size() != (size_t)m->nu)) note(check, "ctrl");
+  if (!same_prefix(b.mpos, d->mocap_pos, 3 * (size_t)m->nmocap)) note(check, "mocap_pos");
+  if (!same_prefix(b.mquat, d->mocap_quat, 4 * (size_t)m->nmocap)) note(check, "mocap_quat");
+}
+
+void run_case(int ntex, unsigned seed, int nstep, bool extras) {
   char err[1000];
   diffs.clear();
+  simerror = false;
   mjSpec* s = mjb_build(stdin, err, sizeof err);
+  if (s) add_textures(s, ntex, seed);
+  else {
+    // mjb_build stopped at the offending line: skip the rest of the description
+    char skip[1 << 12];
+    while (std::fgets(skip, sizeof skip, stdin)) if (!std::strncmp(skip, "end", 3) && (skip[3] == '\n' || skip[3] == 0 || skip[3] == '\r')) break;
+  }
+  if (extras) {
+    char xerr[400] = "";
+    if (!read_extras(s, xerr, sizeof xerr) && s) {
+      std::printf("error extras: %s\n", xerr); mj_deleteSpec(s); return;
+    }
+  }
   if (!s) { for (char* c = err; *c; c++) if (*c == '\n' || *c == '\r') *c = ' '; std::printf("error build: %s\n", err); return; }
-  add_textures(s, ntex, seed);
+
+  // a deep copy of the spec that has never been compiled
+  mjSpec* s0 = mj_copySpec(s);
+  std::vector<int> nsrc = count_elements(s);
+
   mjModel* m1 = mj_compile(s, nullptr);
   if (!m1) {
     std::string e = mjs_getError(s);
     for (char& c : e) if (c == '\n' || c == '\r') c = ' ';
-    std::printf("error compile: %.300s\n", e.c_str()); mj_deleteSpec(s); return;
+    std::printf("error compile: %.300s\n", e.c_str()); mj_deleteSpec(s); if (s0) mj_deleteSpec(s0); return;
   }
   int pooltasks = m1->nmesh + m1->ntex;
 
@@ -129,12 +331,30 @@ void run_case(int ntex, unsigned seed, int nstep) {
   mjModel* m2 = mj_compile(s, nullptr);
   if (!m2) note("twice", "second-compile-failed"); else { compare_models("twice", m1, m2); mj_deleteModel(m2); }
 
-  // copyspec
+  // copyspec0: the copy taken before the first compile
+  std::vector<int> ncopy0, ncopy;
+  if (!s0) note("copyspec0", "mj_copySpec-failed");
+  else {
+    ncopy0 = count_elements(s0);
+    compare_counts("copyspec0", nsrc, ncopy0);
+    compile_and_compare("copyspec0", s0, m1);
+    mj_deleteSpec(s0);
+  }
+
+  // copyspec (copy of the compiled spec) and copycopy
   mjSpec* s2 = mj_copySpec(s);
   if (!s2) note("copyspec", "mj_copySpec-failed");
   else {
-    mjModel* m3 = mj_compile(s2, nullptr);
-    if (!m3) note("copyspec", "compile-of-copy-failed"); else { compare_models("copyspec", m1, m3); mj_deleteModel(m3); }
+    ncopy = count_elements(s2);
+    compare_counts("copyspec", nsrc, ncopy);
+    mjSpec* s3 = mj_copySpec(s2);                      // copy of a copy that has not been compiled
+    compile_and_compare("copyspec", s2, m1);
+    if (!s3) note("copycopy", "mj_copySpec-failed");
+    else {
+      compare_counts("copycopy", nsrc, count_elements(s3));
+      compile_and_compare("copycopy", s3, m1);
+      mj_deleteSpec(s3);
+    }
     mj_deleteSpec(s2);
   }
 
@@ -158,22 +378,16 @@ void run_case(int ntex, unsigned seed, int nstep) {
     if (mr->nkey > 0) mj_resetDataKeyframe(mr, d, 0);
     for (int i = 0; i < mr->nu; i++) d->ctrl[i] = 0.6 * unit(st) - 0.3;
     for (int i = 0; i < 3 * mr->nmocap; i++) d->mocap_pos[i] += 0.1 * unit(st);
-    for (int k = 0; k < nstep; k++) mj_step(mr, d);
+    steps(mr, d, nstep);
     State before = grab(mr, d);
     int rc = mj_recompile(s, nullptr, mr, d);
     if (rc != 0) { note("recompile", "returned-nonzero"); mr = nullptr; d = nullptr; }
     else {
       compare_models("recompile", m1, mr);
-      if (d->time != before.time) note("recompile", "time");
-      if (!same_prefix(before.qpos, d->qpos, (size_t)mr->nq) || before.qpos.size() != (size_t)mr->nq) note("recompile", "qpos");
-      if (!same_prefix(before.qvel, d->qvel, (size_t)mr->nv) || before.qvel.size() != (size_t)mr->nv) note("recompile", "qvel");
-      if (!same_prefix(before.act, d->act, (size_t)mr->na) || before.act.size() != (size_t)mr->na) note("recompile", "act");
-      if (!same_prefix(before.ctrl, d->ctrl, (size_t)mr->nu) || before.ctrl.size() != (size_t)mr->nu) note("recompile", "ctrl");
-      if (!same_prefix(before.mpos, d->mocap_pos, 3 * (size_t)mr->nmocap)) note("recompile", "mocap_pos");
-      if (!same_prefix(before.mquat, d->mocap_quat, 4 * (size_t)mr->nmocap)) note("recompile", "mocap_quat");
+      check_state("recompile", before, mr, d, true);
 
       // edit: one more jointed body at the end of the world body; existing state must survive
-      for (int k = 0; k < 3; k++) mj_step(mr, d);
+      steps(mr, d, 3);
       State b2 = grab(mr, d);
       mjsBody* nb = mjs_addBody(mjs_findBody(s, "world"), nullptr);
       mjs_setName(nb->element, "c33_added_body");
@@ -190,25 +404,60 @@ void run_case(int ntex, unsigned seed, int nstep) {
       else {
         if (mr->nq != nq0 + 1 || mr->nv != nv0 + 1) note("edit", "sizes");
         else {
-          if (d->time != b2.time) note("edit", "time");
-          if (!same_prefix(b2.qpos, d->qpos, (size_t)mr->nq)) note("edit", "qpos");
-          if (!same_prefix(b2.qvel, d->qvel, (size_t)mr->nv)) note("edit", "qvel");
-          if (!same_prefix(b2.act, d->act, (size_t)mr->na)) note("edit", "act");
-          if (!same_prefix(b2.ctrl, d->ctrl, (size_t)mr->nu)) note("edit", "ctrl");
-          if (!same_prefix(b2.mpos, d->mocap_pos, 3 * (size_t)mr->nmocap)) note("edit", "mocap_pos");
-          if (!same_prefix(b2.mquat, d->mocap_quat, 4 * (size_t)mr->nmocap)) note("edit", "mocap_quat");
+          check_state("edit", b2, mr, d, false);
           if (d->qpos[nq0] != mr->qpos0[nq0]) note("edit", "new-joint-qpos0");
           if (d->qvel[nv0] != 0) note("edit", "new-joint-qvel");
         }
       }
+
+      // edit2: a stateful actuator on the new joint
+      if (mr && d && diffs.empty()) {
+        steps(mr, d, 2);
+        State b3 = grab(mr, d);
+        mjsActuator* na = mjs_addActuator(s, nullptr);
+        mjs_setName(na->element, "c33_added_actuator");
+        na->trntype = mjTRN_JOINT;
+        mjs_setString(na->target, "c33_added_joint");
+        na->dyntype = mjDYN_INTEGRATOR;
+        int nu0 = mr->nu, na0 = mr->na;
+        rc = mj_recompile(s, nullptr, mr, d);
+        if (rc != 0) { note("edit2", "returned-nonzero"); mr = nullptr; d = nullptr; }
+        else if (mr->nu != nu0 + 1 || mr->na != na0 + 1) note("edit2", "sizes");
+        else {
+          check_state("edit2", b3, mr, d, false);
+          if (d->ctrl[nu0] != 0) note("edit2", "new-ctrl");
+          if (d->act[na0] != 0) note("edit2", "new-act");
+        }
+      }
+
+      // undo: delete the added body (its joint, geom and the actuator that targets the joint go with it)
+      if (mr && d && diffs.empty()) {
+        for (int i = 0; i < mr->nu; i++) d->ctrl[i] = 0.4 * unit(st) - 0.2;
+        steps(mr, d, 2);
+        State b4 = grab(mr, d);
+        int nq1 = mr->nq, nv1 = mr->nv, nu1 = mr->nu, na1 = mr->na;
+        if (mjs_delete(s, nb->element)) note("undo", "mjs_delete-failed");
+        else {
+          rc = mj_recompile(s, nullptr, mr, d);
+          if (rc != 0) { note("undo", "returned-nonzero"); mr = nullptr; d = nullptr; }
+          else if (mr->nq != nq1 - 1 || mr->nv != nv1 - 1 || mr->nu != nu1 - 1 || mr->na != na1 - 1) note("undo", "sizes");
+          else {
+            // the deleted joint / actuator were the last ones: the remaining state is a prefix of the old one
+            b4.qpos.resize((size_t)mr->nq); b4.qvel.resize((size_t)mr->nv);
+            b4.act.resize((size_t)mr->na); b4.ctrl.resize((size_t)mr->nu);
+            check_state("undo", b4, mr, d, true);
+          }
+        }
+      }
     }
   }
-  if (diffs.empty()) std::printf("ok nmesh=%d ntex=%d nq=%d nv=%d nu=%d pooltasks=%d\n", (int)m1->nmesh, (int)m1->ntex, (int)m1->nq, (int)m1->nv, (int)m1->nu, pooltasks);
+  if (simerror && diffs.size() > diffs_at_simerror) diffs.resize(diffs_at_simerror);
+  if (diffs.empty()) std::printf("ok nmesh=%d ntex=%d nq=%d nv=%d nu=%d pooltasks=%d%s", (int)m1->nmesh, (int)m1->ntex, (int)m1->nq, (int)m1->nv, (int)m1->nu, pooltasks, simerror ? " simerror=1" : "");
   else {
     std::printf("DIFF");
     for (auto& x : diffs) std::printf(" %s", x.c_str());
-    std::printf("\n");
   }
+  std::printf(" # src=%s copy=%s copy0=%s\n", show_counts(nsrc).c_str(), show_counts(ncopy).c_str(), show_counts(ncopy0).c_str());
   if (d) mj_deleteData(d);
   if (mr) mj_deleteModel(mr);
   mj_deleteModel(m1);
@@ -226,10 +475,12 @@ static void on_alarm(int) {
 
 int main() {
   signal(SIGALRM, on_alarm);
+  mju_user_error = on_engine_error;
   char line[256];
   while (std::fgets(line, sizeof line, stdin)) {
-    int ntex, nstep; unsigned seed;
-    if (std::sscanf(line, "case %d %u %d", &ntex, &seed, &nstep) != 3 || ntex < 0 || ntex > 32 || nstep < 0 || nstep > 1000) {
+    int ntex, nstep; unsigned seed; char flag[8] = "";
+    int nf = std::sscanf(line, "case %d %u %d %7s", &ntex, &seed, &nstep, flag);
+    if (nf < 3 || (nf == 4 && std::strcmp(flag, "x")) || ntex < 0 || ntex > 32 || nstep < 0 || nstep > 1000) {
       // skip blank lines silently, report anything else
       bool blank = true;
       for (char* c = line; *c; c++) if (*c != ' ' && *c != '\n' && *c != '\r' && *c != '\t') blank = false;
@@ -237,7 +488,7 @@ int main() {
       continue;
     }
     alarm(120);
-    run_case(ntex, seed, nstep);
+    run_case(ntex, seed, nstep, nf == 4);
     alarm(0);
     std::fflush(stdout);
   }
